@@ -119,7 +119,7 @@ m = {
         "guard": "narsese_verif",
         "enable": "rustflags --cfg narsese_verif in /verif/harness/.cargo/config.toml (the harness has a path dependency on /repo, so every check rebuilds the library from the current working tree with the flag on)",
         "baseline_off_cmd": "cd /repo && cargo test --workspace --no-fail-fast --offline",
-        "source_commits": ["ad7099c"],
+        "source_commits": ["ad7099c", "9859f08"],
         "add_only": True,
     },
     "engines": [{"name": "tlc+nv", "path": "bin/check", "serves_properties": [c["property_id"] for c in checks],
